@@ -36,6 +36,18 @@ impl FlushStat {
     }
 }
 
+#[cfg(feature = "verif-hooks")]
+impl<T: Types> WorkerRequest<T> {
+    pub(crate) fn verif_kind(&self) -> &'static str {
+        match self {
+            WorkerRequest::AppendFile(_) => "append_file",
+            WorkerRequest::RemoveChunks { .. } => "remove_chunks",
+            WorkerRequest::Write(_) => "write",
+            WorkerRequest::GetFlushStat { .. } => "get_stat",
+        }
+    }
+}
+
 pub(crate) enum WorkerRequest<T: Types> {
     /// Append a new file that will be need to be sync.
     AppendFile(FileEntry<T>),
